@@ -294,6 +294,9 @@ func c15Event(l *effListener, x *Explorer, st *State, ev *Event) {
 			l.bad("C15.R1", fn, construct, fmt.Sprintf("insertion-class mutation %s not preceded by %s", ev.Eff, strings.Join(missing, ", ")), where, x, st, ev.Instr)
 		}
 	case ev.Eff == EClone:
+		if ev.Tags&TParamObj == 0 {
+			return // a clone of something else than the object being inserted (e.g. a cache read)
+		}
 		if st.must.Has(EHookT) && st.must.Has(ECanon) {
 			l.ok("C15.R4", fn, "clone", where)
 		} else {
